@@ -1128,3 +1128,83 @@ def c04(ctx):
     if len(ctx.violations) > 5:
         ctx.violations.sort(key=lambda v: not v[2]); ctx.violations = ctx.violations[:5]
     return finish(ctx, 'proof', ob, dis, details, rule)
+
+
+# ---------------------------------------------------------------- C20: Reflective twins and generated helpers
+
+def helper_compare(ctx, mode, n, st, distinct):
+    impl, model = vcheck.flat_run(ctx, mode, n)
+    if impl is None:
+        return
+    if len(impl) != len(model):
+        ctx.violations.append(('model produced %d records for %d %s records' % (len(model), len(impl), mode),
+                               write_replay(ctx, 'helper_%s.txt' % mode, '\n'.join(impl[:50] + model[:50])), False))
+        return
+    for a, b in zip(impl, model):
+        x = a.split(); y = b.split()
+        d = dict(t.split('=', 1) for t in x[2:] if '=' in t)
+        m = dict(t.split('=', 1) for t in y[3:] if '=' in t)
+        r = d.get('result', '?')
+        if r == 'err':
+            ok = y[2] == 'err'
+        elif r == 'ok' and y[2] == 'ok':
+            if mode == 'curry':
+                ok = d['src'] == m['src'] and d['curried'] == m['curried'] and d['ret'] == 'true'
+            elif mode == 'filler':
+                ok = d['inputs'] == m['inputs'] and d['fields'] == m['fields']
+            else:
+                ok = d['stored'] == m['stored']
+        else:
+            ok = False
+        st['%s-%s-%s' % (mode, r.split(':')[0], 'agree' if ok else 'DIFFER')] += 1
+        if ok:
+            sig = d.get('s') or (d.get('o', '') + '>' + d.get('n', '') + '/' + d.get('oo', '') + '>' + d.get('no', '')) if mode != 'saveto' else d.get('types')
+            distinct.add((mode, sig))
+            if len(ctx.samples) < 6 and r == 'ok' and len(a) > 60 and not any(isinstance(x_, dict) and x_.get('mode') == mode for x_ in ctx.samples):
+                ctx.samples.append({'mode': mode, 'implementation': a, 'model': b})
+        else:
+            found = not r.startswith(('err',)) or y[2] != 'err'
+            what = {'curry': 'Curry', 'filler': 'MakeStructBuilder', 'saveto': 'SaveTo'}[mode]
+            ctx.violations.append(('%s differs from its model: implementation "%s" model "%s"' % (what, a[:200], b[:160]),
+                                   write_replay(ctx, 'helper_%s_%s.txt' % (mode, x[1]), a + '\n' + b + '\n# replay: harness %s -seed %d -n %d, record %s\n' % (mode, ctx.seed, n, x[1])), True))
+
+
+@prop('C20')
+def c20(ctx):
+    rule = ('(1) Reflective twins: every generated chain is run with all function providers as plain functions, with ALL of them supplied '
+            'through Reflective/ReflectiveWrapper (MakeReflective*) and with a random subset so supplied: bind verdict, included set, full '
+            'trace and the S3/S7 stage records (class, group, flows, parameter maps, slots) must be identical; (2) Curry: random original '
+            'and curried signatures (permuted, repeated types, results; ~35% must be rejected): verdict, requested types, the source of '
+            'every argument the original receives and the results compared with curryModel/curriedCall; (3) MakeStructBuilder: random '
+            'struct shapes via reflect.StructOf (nesting depth 3, unexported fields, comma-separated tags incl. invalid ones, pointer and '
+            'value models): verdict, requested inputs and every visible leaf of the built struct compared with FDesc.inputs/fillerCall; '
+            '(4) SaveTo: random pointer lists (repeated types). distinct = distinct signatures / shapes / provider lists')
+    ob, dis, details = proof_obligations(ctx, 'C20')
+    st = collections.Counter(); distinct = set()
+    q = ctx.tier == 'quick'
+    helper_compare(ctx, 'curry', 3000 if q else 60000, st, distinct)
+    helper_compare(ctx, 'filler', 3000 if q else 60000, st, distinct)
+    helper_compare(ctx, 'saveto', 300 if q else 5000, st, distinct)
+    cases = load_cases(ctx, 'refl', 1200 if q else 15000)
+    for c in cases or []:
+        for l in pair_lines(c):
+            tk = l.split()
+            st[tk[1] + '-' + tk[2]] += 1
+            if tk[2] == 'diff':
+                ctx.violations.append(('Reflective twin differs: %s (case %s)' % (' '.join(tk[1:])[:200], c.key),
+                                       write_replay(ctx, 'case_%s.txt' % c.key, c.text()), True))
+            else:
+                distinct.add((tk[1], c.shape_key()))
+    if cases:
+        stage_stats(ctx, cases, s3_compare, 'S3')
+    ctx.cov['evaluations'] = sum(st.values())
+    ctx.cov['programs'] = len(cases or [])
+    ctx.cov['distinct_nontrivial'] = len(distinct)
+    ctx.cov['traces_validated_against_impl'] = sum(v for k, v in st.items() if k.endswith(('-agree', '-same')))
+    ctx.cov['outcomes'] = dict(st)
+    ctx.assumptions += ['post-actions of MakeStructBuilder (PostActionBy*, WithMethodCall) are not modelled: only covered by the repository tests',
+                        'reflect.StructOf cannot create embedded (anonymous) fields with methods; embedded structs are generated as named nested fields',
+                        'the value a generated provider is fed for each requested type is C01']
+    if len(ctx.violations) > 5:
+        ctx.violations.sort(key=lambda v: not v[2]); ctx.violations = ctx.violations[:5]
+    return finish(ctx, 'proof', ob, dis, details, rule)
